@@ -30,6 +30,7 @@ var (
 		"indent":     indent,
 		"overindent": indentDbus,
 		"setindent":  setindent,
+		"quote":      quoteAARE,
 	}
 
 	// The apparmor templates
@@ -223,6 +224,14 @@ func cjoin(i any) string {
 	default:
 		return i.(string)
 	}
+}
+
+// quoteAARE puts a path holding a blank between double quotes, as the policy language requires
+func quoteAARE(s string) string {
+	if strings.ContainsAny(s, " \t") && !strings.HasPrefix(s, `"`) {
+		return `"` + s + `"`
+	}
+	return s
 }
 
 func kindOf(i Rule) string {
